@@ -736,7 +736,11 @@ pub fn run_scenario(
                             }
                         }
                         let nblocks = files.iter().filter(|(k, _)| k.ends_with(".sai")).count();
-                        let intact = files.iter().filter(|(k, v)| k.ends_with(".sai") && Block::deserialize_from_net(v).is_ok()).count();
+                        // (the decoder is code under test: a panic in it must not take the harness down)
+                        let intact = files
+                            .iter()
+                            .filter(|(k, v)| k.ends_with(".sai") && guarded(|| Block::deserialize_from_net(v).is_ok()).unwrap_or(false))
+                            .count();
                         wd.pet(&format!("scn {} step {} crash image cut {} {}", scn_no, r.step_no, cut, torn));
                         let (res, booted) = r.boot(files);
                         let mut ext = "none".to_string();
